@@ -357,7 +357,7 @@ class Play:
             raise Fail("skip", "recursion limit")
         except HarnessError:
             raise
-        except Exception as e:  # whatever escapes the library is an observation (compared with the expected outcome)
+        except (Exception, asyncio.CancelledError) as e:  # whatever escapes the library is an observation (compared with the expected outcome)
             return ("exc", e)
 
     async def call(self, fn):
@@ -373,8 +373,9 @@ class Play:
                 raise Fail("skip", "recursion limit")
             except HarnessError:
                 raise
-            except Exception as e:
-                for _ in range(4):  # let sibling coroutines of a failed group finish (their records are discounted)
+            except (Exception, asyncio.CancelledError) as e:
+                # (the harness never cancels the task that drives the scenario: a CancelledError here came out of the library)
+                for _ in range(8):  # let sibling coroutines of a failed group finish (their records are discounted)
                     await asyncio.sleep(0)
                 return ("exc", e)
         if self.driver == "threads":
@@ -385,7 +386,18 @@ class Play:
             if t.is_alive():
                 raise HarnessError("driver thread did not finish")
             return box["obs"]
-        return self._obs(fn)
+        obs = self._obs(fn)
+        if obs[0] == "exc" and any(c.interp is not None and c.interp.is_async for c in self.ctxs.values()):
+            # sync code driving a coroutine machine: the library runs it on a loop it keeps for the thread; sibling coroutines of
+            # a failed group are still pending there.  Let them finish now (their records are discounted), as in the loop driver.
+            from statemachine.utils import run_async_from_sync
+
+            async def spin():
+                for _ in range(8):
+                    await asyncio.sleep(0)
+
+            run_async_from_sync(spin())
+        return obs
 
     # ---- ops
     def trigger_fn(self, ctx, step):
